@@ -115,7 +115,7 @@ def evaluate_pair(case):
 def pair_cases(draw):
     kind = draw(st.sampled_from(["perm", "perm", "scale", "scale", "scale", "zeros"]))
     if kind == "zeros":
-        alg = draw(st.sampled_from(EXACT))
+        alg = draw(st.sampled_from(EXACT + ["bc", "bc"]))
     elif kind == "perm":
         alg = draw(st.sampled_from(SORTING_HEURISTICS + EXACT))
     else:
@@ -128,6 +128,12 @@ def pair_cases(draw):
             case.pop("opts", None)              # the default (unbounded) cardinality difference: zeros then change nothing
         if alg == "multifit":
             case.pop("opts", None)
+    elif alg == "bc" and draw(st.integers(0, 2)) > 0:
+        # bin completion on planted instances where best-fit-decreasing is not optimal, so that its search really runs
+        C = draw(st.sampled_from([12, 20, 30, 50, 100]))
+        fam, values, _ = draw(S.hard_packing(C, max_bins=3, max_len=10))
+        case = {"alg": "bc", "values": values, "binsize": C, "pres": draw(st.sampled_from(["list", "list", "dict-str", "array"])),
+                "nseed": draw(st.integers(0, 5)), "profile": "bc-" + fam}
     elif alg in sut.PACKERS:
         case = draw(cases.packing_cases(algs=[alg], presentations=["list", "list", "dict-str", "array"], eighths=False,
                                         max_len=11 if alg == "bc" else 20))
